@@ -36,6 +36,7 @@ CONSTANTS FnNames,        \* names defined by `def`
           RefChoices,     \* RefChoices[n]: the possible sets of names the body of n refers to
           KindChoices,    \* KindChoices[n] \subseteq {"mem", "plain"}
           MaxEd, MaxVal, MaxObjs, MaxEvents,
+          MaxLocks,       \* how often the cluster may be locked in one behaviour (0: never)
           KF_DefaultsNotHashed, KF_AdoptCached, KF_AliasBlind, KF_OneRulePerKey
 
 VARIABLES text,     \* program text: n -> [kind, ed, dfl, refs]
@@ -46,12 +47,16 @@ VARIABLES text,     \* program text: n -> [kind, ed, dfl, refs]
           gen, vcache, calc, rules,       \* memento.py state
           wrappers, \* ids of unregistered instances created by the user
           memo,     \* persistent store: set of [name, ver, built]
-          nev, last, coherent, fresh
+          nev, last, coherent, fresh,
+          locked,   \* FunctionCluster.locked: no new memento functions, versions already calculated are frozen
+          nlocks
 
-vars == <<text, atarget, val, objs, bind, gen, vcache, calc, rules, wrappers, memo, nev, last, coherent, fresh>>
+vars == <<text, atarget, val, objs, bind, gen, vcache, calc, rules, wrappers, memo, nev, last, coherent, fresh, locked, nlocks>>
+lockvars == <<locked, nlocks>>
 
 AllNames == FnNames \cup AliasNames \cup VarNames
 NoObj == 0
+Locked == {<<"locked">>}        \* stands in for the provenance of a result computed under a frozen version
 IsFnBound(n) == n \in (FnNames \cup AliasNames) /\ bind[n] # NoObj
 ObjOf(n) == objs[bind[n]]
 
@@ -121,6 +126,7 @@ Init ==
   /\ atarget \in [AliasNames -> FnNames \ {RootName}]
   /\ val \in [VarNames -> {0}]
   /\ memo = {} /\ nev = 0 /\ last = [ev |-> "init"] /\ coherent = TRUE /\ fresh = TRUE
+  /\ locked = FALSE /\ nlocks = 0
   /\ LET ns == CHOOSE s \in [1..Cardinality(FnNames) -> FnNames] : \A i, j \in DOMAIN s : i # j => s[i] # s[j]
          os == [i \in 1..Len(ns) |-> NewObj(ns[i], text[ns[i]], TRUE)]
          idx(n) == CHOOSE i \in 1..Len(ns) : ns[i] = n
@@ -138,6 +144,8 @@ Tick(e) == nev < MaxEvents /\ nev' = nev + 1 /\ last' = e
 Redefine(n, ed2, dfl2, refs2, kind2) ==
   /\ Tick([ev |-> "Redefine", n |-> n, ed |-> ed2, dfl |-> dfl2, refs |-> refs2, kind |-> kind2])
   /\ Len(objs) < MaxObjs
+  /\ (locked => kind2 # "mem")       \* a locked cluster refuses new memento functions (configuration.py:572-577)
+  /\ UNCHANGED lockvars
   /\ text' = [text EXCEPT ![n] = [kind |-> kind2, ed |-> ed2, dfl |-> dfl2, refs |-> refs2]]
   /\ objs' = Append(objs, NewObj(n, text'[n], TRUE))
   /\ bind' = [bind EXCEPT ![n] = Len(objs) + 1]
@@ -146,18 +154,18 @@ Redefine(n, ed2, dfl2, refs2, kind2) ==
 
 SetVar(v, x) ==
   /\ Tick([ev |-> "SetVar", n |-> v, x |-> x])
-  /\ val[v] # x /\ val' = [val EXCEPT ![v] = x]
+  /\ val[v] # x /\ val' = [val EXCEPT ![v] = x] /\ UNCHANGED lockvars
   /\ UNCHANGED <<text, atarget, objs, bind, gen, vcache, calc, rules, wrappers, memo, coherent, fresh>>
 
 Rebind(a, n) ==      \* a = n   (module attribute assigned an existing object)
   /\ Tick([ev |-> "Rebind", n |-> a, to |-> n])
-  /\ bind[n] # NoObj /\ bind[a] # bind[n]
+  /\ bind[n] # NoObj /\ bind[a] # bind[n] /\ UNCHANGED lockvars
   /\ bind' = [bind EXCEPT ![a] = bind[n]] /\ atarget' = [atarget EXCEPT ![a] = n]
   /\ UNCHANGED <<text, val, objs, gen, vcache, calc, rules, wrappers, memo, coherent, fresh>>
 
 Wrap(n) ==           \* MementoFunction(fn, register_fn = FALSE) around the function currently bound to n
   /\ Tick([ev |-> "Wrap", n |-> n, id |-> Len(objs) + 1])
-  /\ Len(objs) < MaxObjs /\ bind[n] # NoObj /\ ObjOf(n).kind = "mem"
+  /\ Len(objs) < MaxObjs /\ bind[n] # NoObj /\ ObjOf(n).kind = "mem" /\ UNCHANGED lockvars
   /\ objs' = Append(objs, [ObjOf(n) EXCEPT !.reg = FALSE])
   /\ wrappers' = wrappers \cup {Len(objs) + 1}
   /\ UNCHANGED <<text, atarget, val, bind, gen, vcache, calc, rules, memo, coherent, fresh>>
@@ -171,7 +179,10 @@ QueryResult(id) ==     \* -> [ver, gen, vcache, calc, rules]
       gen1 == IF changed THEN gen + 1 ELSE gen
   \* (the name-keyed cache entry may have been refreshed by ANOTHER object of that name: an object keeps its calculated
   \*  version only if it is the cached one - memento.py after 46706b5)
-  IN IF hit /\ ~changed /\ calc[id] # <<>> /\ calc[id][1] = e[2]
+  \* a locked cluster: a version that has been calculated is not looked at again (memento.py:437-441)
+  IN IF locked /\ calc[id] # <<>>
+     THEN [ver |-> calc[id][1], gen |-> gen, vcache |-> vcache, calc |-> calc, rules |-> rules]
+     ELSE IF hit /\ ~changed /\ calc[id] # <<>> /\ calc[id][1] = e[2]
      THEN [ver |-> calc[id][1], gen |-> gen, vcache |-> vcache, calc |-> calc, rules |-> rules]
      ELSE IF hit /\ ~changed /\ calc[id] = <<>> /\ KF_AdoptCached
      THEN [ver |-> e[2], gen |-> gen, vcache |-> vcache, calc |-> [calc EXCEPT ![id] = <<e[2]>>], rules |-> rules]
@@ -185,8 +196,8 @@ Query(id) ==
   LET q == QueryResult(id) IN
   /\ Tick([ev |-> "Query", id |-> id, n |-> objs[id].name, wrapper |-> id \in wrappers, ver |-> q.ver])
   /\ gen' = q.gen /\ vcache' = q.vcache /\ calc' = q.calc /\ rules' = q.rules
-  /\ coherent' = (coherent /\ q.ver = Recompute(id))        \* C13
-  /\ UNCHANGED <<text, atarget, val, objs, bind, wrappers, memo, fresh>>
+  /\ coherent' = (coherent /\ (locked \/ q.ver = Recompute(id)))        \* C13 (the frozen versions of a locked cluster excepted)
+  /\ UNCHANGED <<text, atarget, val, objs, bind, wrappers, memo, fresh>> /\ UNCHANGED lockvars
 
 (* a call of the root function: the version keys the store                            *)
 Call ==
@@ -196,15 +207,27 @@ Call ==
   IN /\ Tick([ev |-> "Call", served |-> hits # {}, ver |-> q.ver])
      /\ gen' = q.gen /\ vcache' = q.vcache /\ calc' = q.calc /\ rules' = q.rules
      /\ IF hits # {}
-        THEN fresh' = (fresh /\ \A m \in hits : m.built = TrueVersion(id)) /\ UNCHANGED memo      \* C01
-        ELSE memo' = memo \cup {[name |-> RootName, ver |-> q.ver, built |-> TrueVersion(id)]} /\ UNCHANGED fresh
-     /\ UNCHANGED <<text, atarget, val, objs, bind, wrappers, coherent>>
+        \* C01; what is served or stored under a frozen version is the user's choice (built "locked": exempt for good)
+        THEN fresh' = (fresh /\ (locked \/ \A m \in hits : m.built = Locked \/ m.built = TrueVersion(id))) /\ UNCHANGED memo
+        ELSE memo' = memo \cup {[name |-> RootName, ver |-> q.ver, built |-> IF locked THEN Locked ELSE TrueVersion(id)]} /\ UNCHANGED fresh
+     /\ UNCHANGED <<text, atarget, val, objs, bind, wrappers, coherent>> /\ UNCHANGED lockvars
 
 (* a fresh interpreter on the same store, importing the program as it stands           *)
 NewProcess ==
   /\ Tick([ev |-> "NewProcess"])
   /\ DefineAll
+  /\ locked' = FALSE /\ UNCHANGED nlocks          \* the lock is state of the process that set it
   /\ UNCHANGED <<text, atarget, val, memo, coherent, fresh>>
+
+SetLock(b) ==        \* cluster.locked = b
+  /\ Tick([ev |-> "Lock", on |-> b])
+  /\ locked # b /\ (b => nlocks < MaxLocks)
+  \* (the code calculates a version when a function is defined, the model when it is first asked for: the two agree on what
+  \*  a lock freezes once every memento function in the namespace has been asked since the last change)
+  /\ b => \A n \in FnNames : (bind[n] # NoObj /\ ObjOf(n).kind = "mem") =>
+                                 (calc[bind[n]] # <<>> /\ calc[bind[n]][1] = Recompute(bind[n]))
+  /\ locked' = b /\ nlocks' = IF b THEN nlocks + 1 ELSE nlocks
+  /\ UNCHANGED <<text, atarget, val, objs, bind, gen, vcache, calc, rules, wrappers, memo, coherent, fresh>>
 
 Mutate ==
   \/ \E n \in FnNames, e \in 0..1, d \in 0..1, rs \in UNION {RefChoices[x] : x \in FnNames}, k \in {"mem", "plain"} :
@@ -215,6 +238,7 @@ Mutate ==
   \/ \E a \in AliasNames, n \in FnNames \ {RootName} : Rebind(a, n)
   \/ \E n \in FnNames : Wrap(n)
   \/ NewProcess
+  \/ \E b \in BOOLEAN : SetLock(b)
 Observe ==
   \/ \E id \in Queryable : Query(id)
   \/ Call
@@ -224,6 +248,8 @@ Spec == Init /\ [][Next]_vars
 
 Coherent == coherent        \* C13: every version query equals the from-scratch computation
 Fresh    == fresh           \* C01: whatever a call serves was built from the current program
+(* a locked cluster freezes the versions that have been calculated                      *)
+Frozen == [][(locked /\ locked') => \A id \in 1..Len(objs) : calc[id] # <<>> => calc'[id] = calc[id]]_vars
 (* C03: nothing of the in-process history (generation, object ids, caches) occurs in a version *)
 Deterministic == \A id \in 1..Len(objs) : calc[id] # <<>> =>
                     \A t \in calc[id][1] : t[1] \in {"M", "F", "G"} /\ t[2] \in FnNames \cup {"-"}
